@@ -154,3 +154,42 @@ where
     }
     Ok(checks.len())
 }
+
+/// `Clone` routes: `clone`, `clone_from` into destinations of other shapes (other arity, larger / smaller
+/// buffers), `Vec::clone_from`, `Option::clone_from`, `ToOwned::clone_into`.  After each, the destination must be
+/// indistinguishable from the source: `==` and the caller's `same` (a semantic comparison: arity, terms, table).
+pub fn clone_routes<T: Clone + PartialEq>(src: &T, dsts: &[T], same: &dyn Fn(&T, &T) -> bool) -> Result<usize, String> {
+    let mut n = 0;
+    let c = src.clone();
+    n += 1;
+    if c != *src || !same(&c, src) {
+        return Err("clone()".into());
+    }
+    for (k, d) in dsts.iter().enumerate() {
+        let mut x = d.clone();
+        x.clone_from(src);
+        n += 1;
+        if x != *src || !same(&x, src) {
+            return Err(format!("clone_from into destination #{}", k));
+        }
+        let mut v = vec![d.clone(), d.clone()];
+        v.clone_from(&vec![src.clone(), src.clone()]);
+        n += 1;
+        if v.iter().any(|e| e != src || !same(e, src)) {
+            return Err(format!("Vec::clone_from over destination #{}", k));
+        }
+        let mut o = Some(d.clone());
+        o.clone_from(&Some(src.clone()));
+        n += 1;
+        if o.as_ref().map_or(true, |e| e != src || !same(e, src)) {
+            return Err(format!("Option::clone_from over destination #{}", k));
+        }
+        let mut y = d.clone();
+        src.clone_into(&mut y);
+        n += 1;
+        if y != *src || !same(&y, src) {
+            return Err(format!("clone_into destination #{}", k));
+        }
+    }
+    Ok(n)
+}
